@@ -139,14 +139,24 @@ def bundle_literal_sibling_branches(repo: Repo, rep: Report, rule: str) -> None:
     rep.floor(rule, "member-contributing branches", n_br, 2)
 
 
+_BORROWING = False
+
+
 def borrow(repo: Repo, rep: Report, from_prop: str, from_rule: str, new_rule: str, text: str, select=lambda o: True, floor: int = 1) -> None:
     """Re-state obligations of a sibling property's rule under this property: the mechanism (one function, one table) underlies
     both properties, so a defect in it breaks both.  The sibling's rule set is run on the same source model; nothing is cached."""
     import importlib
 
+    global _BORROWING
+    if _BORROWING:
+        return  # a rule set that is itself being borrowed from does not borrow further (no cycles, no second-hand obligations)
     rep.rule(new_rule, text + f" (the obligations of {from_rule}, which owns the mechanism)")
     sub = Report(from_prop, "borrow")
-    importlib.import_module(f"fv.rules.{from_prop.lower()}").run(repo, sub, "quick")
+    _BORROWING = True
+    try:
+        importlib.import_module(f"fv.rules.{from_prop.lower()}").run(repo, sub, "quick")
+    finally:
+        _BORROWING = False
     n = 0
     for o in sub.obs:
         if o.rule == from_rule and select(o):
